@@ -4,6 +4,7 @@ package zzharness
 
 import (
 	"bytes"
+	"encoding/json"
 	"fmt"
 	"math"
 	"net/http"
@@ -232,16 +233,78 @@ type seqState struct {
 	freshLo    time.Time
 	freshHi    time.Time
 	freshKnown bool
+	renewed304 bool // the current lifetime comes from a 304 revalidation
 	present    bool // the reference knows an entry must still be present (inert janitor, big cache)
 }
 
+// seqPolicy is the cache policy in force, which update documents can change while the run goes on.
+type seqPol struct {
+	IgnoreCC, ForceDef bool
+	Def                time.Duration
+	Changed            bool
+}
+
+func (sp *seqPol) apply(doc string) {
+	var m map[string]any
+	if json.Unmarshal([]byte(doc), &m) != nil {
+		return
+	}
+	px, _ := m["proxy"].(map[string]any)
+	cp, _ := px["cache_policy"].(map[string]any)
+	if v, ok := cp["ignore_cache_control"].(bool); ok {
+		sp.IgnoreCC = v
+	}
+	if v, ok := cp["force_default_max_age"].(bool); ok {
+		sp.ForceDef = v
+	}
+	if v, ok := cp["default_max_age"].(string); ok {
+		if d, err := time.ParseDuration(v); err == nil {
+			sp.Def = d
+		}
+	}
+	sp.Changed = true
+}
+
 func judgeSequential(w *proxyWorld, res *Result) {
-	p := w.p
-	def := time.Duration(p.DefaultAgeS) * time.Second
+	p0 := w.p
+	pol := &seqPol{IgnoreCC: p0.IgnoreCC, ForceDef: p0.ForceDef, Def: time.Duration(p0.DefaultAgeS) * time.Second}
+	// p mirrors the plan with the policy currently in force (helpers take a *ProxyPlan)
+	pc := *p0
+	p := &pc
+	def := pol.Def
+	before := len(res.Violations)
+	defer func() {
+		// a wrong outcome after a run-time policy change also means a component did not follow the latest setting
+		if pol.Changed {
+			for _, v := range res.Violations[before:] {
+				if strings.HasPrefix(v.Rule, "C03.") || strings.HasPrefix(v.Rule, "C04.") {
+					res.violate("C19.c", "cache-policy-switch-not-followed", "after a run-time change of the cache policy: %s", v.Msg)
+					break
+				}
+			}
+		}
+	}()
 	inert := p.IntervalMs >= 1000*3600*1000
 	states := map[int]*seqState{}
 	pd := planDesc(p)
 	for _, ex := range w.exch {
+		if ex.Req.Cfg != "" {
+			if ex.CfgErr != "" {
+				res.violate("C18.b", "valid-update-rejected: "+updateClass(ex.Req.Cfg), "update %s: %s", ex.Req.Cfg, ex.CfgErr)
+				continue
+			}
+			pol.apply(ex.Req.Cfg)
+			p.IgnoreCC, p.ForceDef, p.DefaultAgeS = pol.IgnoreCC, pol.ForceDef, int64(pol.Def/time.Second)
+			def = pol.Def
+			pd = planDesc(p) + " (policy changed at run time)"
+			// what the new policy means for entries stored under the old one is not stated:
+			// they are not judged until they have been stored again
+			for _, st := range states {
+				st.freshKnown, st.renewed304 = false, false
+				st.storable = storeMay
+			}
+			continue
+		}
 		if ex.Req.Raw != "" || ex.Req.Evict || !ex.Sent {
 			continue
 		}
@@ -264,7 +327,7 @@ func judgeSequential(w *proxyWorld, res *Result) {
 		if !ex.Complete {
 			// a dropped or failed exchange is C09's business; keep the model in step
 			for _, o := range cons {
-				seqAbsorb(w, st, o, ex, def)
+				seqAbsorb(w, p, st, o, ex, def)
 			}
 			continue
 		}
@@ -336,10 +399,22 @@ func judgeSequential(w *proxyWorld, res *Result) {
 		if lbl == "HIT" {
 			res.violate("C03.b", "hit-label-with-origin-contact", "%s is labelled HIT but the origin received %d request(s) for it [%s]", desc, len(cons), pd)
 		}
-		if st.stored != nil && st.storable == storeMust && st.freshKnown && st.present && ex.RecvT.Before(st.freshLo) {
+		if st.stored != nil && st.renewed304 && st.freshKnown && st.present && ex.RecvT.Before(st.freshLo) && len(st.alts) == 0 {
+			res.violate("C06.c", "lifetime-not-renewed-by-304", "%s at +%v contacted the origin although response #%d was revalidated (304) and thereby renewed until +%v [%s]", desc, ex.SendT.Sub(w.start), st.stored.N, st.freshLo.Sub(w.start), pd)
+		} else if st.stored != nil && st.storable == storeMust && st.freshKnown && st.present && ex.RecvT.Before(st.freshLo) {
 			res.violate("C04.b", "storable-not-reused: "+storableWhy(st.stored, p), "%s at +%v contacted the origin although response #%d (%s) is storable and fresh until +%v [%s]", desc, ex.SendT.Sub(w.start), st.stored.N, hdrDesc(st.stored.RespHdr), st.freshLo.Sub(w.start), pd)
 		}
 		first := cons[0]
+		// C08.b: what the proxy fetches on the client's behalf after a revalidation that could not
+		// be used carries the client's request, not the validators of the stored entry
+		if len(cons) > 1 && first.Cond && first.Status != 304 && first.Status != 200 && !clientSentConditional(ex) {
+			for _, o := range cons[1:] {
+				if o.Cond && !o.Marker {
+					res.violate("C08.b", "validators-added-to-client-request", "%s: after the revalidation was answered %d the proxy fetched again for the client with %v, which the client never sent [%s]", desc, first.Status, condHdrs(o.Hdr), pd)
+					break
+				}
+			}
+		}
 		// C06.b: client validators never reach the origin
 		for _, o := range cons {
 			if o.Marker {
@@ -412,7 +487,7 @@ func judgeSequential(w *proxyWorld, res *Result) {
 		}
 		prev := st.stored
 		for _, c := range cons {
-			seqAbsorb(w, st, c, ex, def)
+			seqAbsorb(w, p, st, c, ex, def)
 		}
 		oldAlts := st.alts
 		st.alts = nil
@@ -451,8 +526,7 @@ func (st *seqState) altValidators(req *OLog) bool {
 }
 
 // seqAbsorb updates the reference state with one origin answer.
-func seqAbsorb(w *proxyWorld, st *seqState, o *OLog, ex *Exch, def time.Duration) {
-	p := w.p
+func seqAbsorb(w *proxyWorld, p *ProxyPlan, st *seqState, o *OLog, ex *Exch, def time.Duration) {
 	switch {
 	case o.Status == 200 && o.Method == "GET" && o.Hdr.Get("Range") == "":
 		st.stored = o
@@ -469,6 +543,7 @@ func seqAbsorb(w *proxyWorld, st *seqState, o *OLog, ex *Exch, def time.Duration
 			st.freshKnown = false
 			return
 		}
+		st.renewed304 = false
 		st.storable = refStorable(o.Method, o.Status, o.RespHdr, o.T, p.IgnoreCC, false)
 		d := refParse(o.RespHdr)
 		lo, k1 := refFreshUntil(d, st.lo, p.ForceDef, def, p.IgnoreCC)
@@ -482,6 +557,7 @@ func seqAbsorb(w *proxyWorld, st *seqState, o *OLog, ex *Exch, def time.Duration
 		}
 		st.freshHi = hi.Add(def)
 		st.freshKnown = true
+		st.renewed304 = true
 		if st.storable == storeMustNot {
 			st.storable = storeMay
 		}
